@@ -262,6 +262,7 @@ func checkC14(p *Program, r *Report) {
 	c14RecordLiterals(p, r)
 	treeLiteralsNotAddressable(p, r, "C14.R8")
 	c14LookupFailure(p, r)
+	c14CapturedWrites(p, r)
 	// R6: snapshots used to isolate runs cover the whole scope chain
 	if em, err := buildEnvModel(p); err != nil {
 		r.Undecided("C14.R6", "model", "env", err.Error())
@@ -986,4 +987,102 @@ func c14LookupFailure(p *Program, r *Report) {
 		}
 	}
 	r.Floor("C14.R9", n, 2)
+}
+
+// c14CapturedWrites (R10): a function literal that package vm turns into a function value (reflect.MakeFunc, reflect.ValueOf,
+// what a script holds as a function) can be called by several executions at once. It therefore writes nothing it captured from
+// the function that created it: such storage exists once per function value, not once per call, and two overlapping calls would
+// overwrite each other's data (arguments of one run arriving in another).
+func c14CapturedWrites(p *Program, r *Report) {
+	sp := p.SSAPkg("vm")
+	if sp == nil {
+		return
+	}
+	// function literals that escape as function values
+	esc := map[*ssa.Function]bool{}
+	for _, fn := range SrcFuncs(sp) {
+		for _, b := range fn.Blocks {
+			for _, in := range b.Instrs {
+				c, ok := in.(*ssa.Call)
+				if !ok {
+					continue
+				}
+				o := calleeObj(c)
+				if o == nil || o.Pkg() == nil || o.Pkg().Path() != "reflect" || (o.Name() != "MakeFunc" && o.Name() != "ValueOf") {
+					continue
+				}
+				for _, a := range c.Call.Args {
+					if mi, ok := a.(*ssa.MakeInterface); ok {
+						a = mi.X
+					}
+					if mc, ok := a.(*ssa.MakeClosure); ok {
+						if f, ok := mc.Fn.(*ssa.Function); ok {
+							esc[f] = true
+						}
+					}
+				}
+			}
+		}
+	}
+	// closures called by an escaping closure run under the same conditions
+	for changed := true; changed; {
+		changed = false
+		for f := range esc {
+			for _, b := range f.Blocks {
+				for _, in := range b.Instrs {
+					if c, ok := in.(*ssa.Call); ok {
+						if g := calleeValueFunc(c); g != nil && g.Parent() != nil && !esc[g] && g.Pkg == sp {
+							esc[g] = true
+							changed = true
+						}
+					}
+				}
+			}
+		}
+	}
+	var fs []*ssa.Function
+	for f := range esc {
+		fs = append(fs, f)
+	}
+	sort.Slice(fs, func(i, j int) bool { return funcName(fs[i]) < funcName(fs[j]) })
+	// rootsAtCapture: the address derives from a captured variable
+	var rootsAtCapture func(v ssa.Value, d int) bool
+	rootsAtCapture = func(v ssa.Value, d int) bool {
+		if d > 8 {
+			return false
+		}
+		switch x := v.(type) {
+		case *ssa.FreeVar:
+			return true
+		case *ssa.UnOp:
+			return rootsAtCapture(x.X, d+1)
+		case *ssa.IndexAddr:
+			return rootsAtCapture(x.X, d+1)
+		case *ssa.FieldAddr:
+			return rootsAtCapture(x.X, d+1)
+		case *ssa.Slice:
+			return rootsAtCapture(x.X, d+1)
+		}
+		return false
+	}
+	for _, f := range fs {
+		bad := ""
+		for _, b := range f.Blocks {
+			for _, in := range b.Instrs {
+				switch x := in.(type) {
+				case *ssa.Store:
+					if rootsAtCapture(x.Addr, 0) {
+						bad = "it stores into captured storage at " + p.Pos(instrPos(x))
+					}
+				case *ssa.MapUpdate:
+					if rootsAtCapture(x.Map, 0) {
+						bad = "it updates a captured map at " + p.Pos(instrPos(x))
+					}
+				}
+			}
+		}
+		r.Check(bad == "", "C14.R10", funcName(f)+"|writes nothing it captured", p.Pos(f.Pos()), "reads its captured variables only",
+			bad+": that storage exists once per function value, so two executions calling the same function value at the same time (a shared library scope, a host-defined function) overwrite each other's data")
+	}
+	r.Floor("C14.R10", len(fs), 3)
 }
